@@ -137,9 +137,35 @@ class SingleFieldSubscriptionsChecker(ValidationVisitor):
     root field.
     """
 
+    def enter_document(self, node):
+        self._fragments = {
+            d.name.value: d
+            for d in node.definitions
+            if isinstance(d, _ast.FragmentDefinition)
+        }
+
+    def _response_names(self, selection_set, seen):
+        # Response names of the root selection set, looking through inline
+        # fragments and fragment spreads (as CollectFields would).
+        names = set()
+        for selection in selection_set.selections:
+            if isinstance(selection, _ast.Field):
+                names.add(selection.response_name)
+            elif isinstance(selection, _ast.InlineFragment):
+                names |= self._response_names(selection.selection_set, seen)
+            elif isinstance(selection, _ast.FragmentSpread):
+                name = selection.name.value
+                fragment = self._fragments.get(name)
+                if fragment is not None and name not in seen:
+                    seen.add(name)
+                    names |= self._response_names(
+                        fragment.selection_set, seen
+                    )
+        return names
+
     def enter_operation_definition(self, node):
         if node.operation == "subscription":
-            if len(node.selection_set.selections) != 1:
+            if len(self._response_names(node.selection_set, set())) > 1:
                 if node.name:
                     msg = (
                         'Subscription "%s" must select only one top level field.'
